@@ -20,8 +20,8 @@ import (
 
 // Event is one entry of the linearised log.
 type Event struct {
-	Seq   int
-	Kind  string // dir ops: persist-start persist-ok persist-err remove-ok remove-err load-ok load-err list lock unlock close-handle
+	Seq  int
+	Kind string // dir ops: persist-start persist-ok persist-err remove-ok remove-err load-ok load-err list lock unlock close-handle
 	//              writer: root intro-segment intro-merge grab persisted
 	//              client: batch-call batch-ret callback async-error reader-open reader-close writer-close-start writer-closed
 	Item  string // ".seg" / ".snp"
@@ -90,6 +90,8 @@ type SimDir struct {
 	LockedElsewhere bool
 	// Pinned: files mapped by open handles cannot be removed (shared flock of the real directory)
 	PinOpen bool
+	// PoisonOnClose: closing a handle wipes the bytes Load handed out (the real directory unmaps them)
+	PoisonOnClose bool
 }
 
 func NewSimDir(rec *Recorder) *SimDir {
@@ -159,6 +161,7 @@ type handle struct {
 	n    int
 	once sync.Once
 	name string
+	data []byte // the bytes handed out by Load (a private copy)
 }
 
 func (h *handle) Close() error {
@@ -169,6 +172,12 @@ func (h *handle) Close() error {
 		delete(h.d.Open, h.n)
 		h.d.mu.Unlock()
 		h.d.Rec.Add(&Event{Kind: "close-handle", Note: h.name, ID: uint64(h.n)})
+		if h.d.PoisonOnClose {
+			// the real directory unmaps the file: whoever still reads these bytes no longer sees the segment
+			for i := range h.data {
+				h.data[i] = 0
+			}
+		}
 	})
 	if !closed {
 		h.d.Rec.Add(&Event{Kind: "double-close", Note: h.name, ID: uint64(h.n)})
@@ -190,6 +199,7 @@ func (d *SimDir) Load(kind string, id uint64) (*segment.Data, io.Closer, error) 
 		h = &handle{d: d, n: d.handles, name: key(kind, id)}
 		d.Open[h.n] = h.name
 		b = append([]byte{}, b...)
+		h.data = b
 	}
 	d.mu.Unlock()
 	if !ok {
@@ -432,18 +442,19 @@ func (d *RecDir) Load(kind string, id uint64) (*segment.Data, io.Closer, error) 
 
 // faultyWriterTo captures what the item writes and fails as planned.
 type faultyWriterTo struct {
-	inner   index.WriterTo
-	fault   *Fault
+	inner    index.WriterTo
+	fault    *Fault
 	buf      bytes.Buffer
 	intended []byte
 	started  func()
 }
 
 type teeWriter struct {
-	w     io.Writer
-	buf   *bytes.Buffer
-	limit int // -1 = unlimited; fail once this many bytes went through
-	err   error
+	w      io.Writer
+	buf    *bytes.Buffer
+	limit  int // -1 = unlimited; fail once this many bytes went through
+	err    error
+	failAt int // > 0: the write that completes this many bytes passes them on and returns err
 }
 
 func (t *teeWriter) Write(p []byte) (int, error) {
@@ -460,6 +471,10 @@ func (t *teeWriter) Write(p []byte) (int, error) {
 	}
 	n, err := t.w.Write(p)
 	t.buf.Write(p[:n])
+	if err == nil && t.failAt > 0 && t.buf.Len() >= t.failAt {
+		// every byte went through, and the write that carried the last one reports the error
+		return n, t.err
+	}
 	return n, err
 }
 
@@ -477,6 +492,10 @@ func (f *faultyWriterTo) WriteTo(w io.Writer, closeCh chan struct{}) (int64, err
 	tw := &teeWriter{w: w, buf: &f.buf, limit: -1}
 	if f.fault != nil && f.fault.When == "partial" {
 		tw.limit = dry.Len() / 2
+		tw.err = f.fault.Err
+	}
+	if f.fault != nil && f.fault.When == "after" && dry.Len() > 0 {
+		tw.failAt = dry.Len()
 		tw.err = f.fault.Err
 	}
 	n, err := f.inner.WriteTo(tw, closeCh)
